@@ -73,12 +73,12 @@ theorem CStmt.ok_mono {o o' : List Nat} (hs : Sub o o') {cs : CStmt} (h : cs.ok 
   cases cs with
   | reg no long e =>
     simp only [CStmt.ok, Bool.and_eq_true] at h ⊢
-    obtain ⟨⟨⟨⟨⟨h1, h2⟩, h3⟩, h4⟩, h5⟩, h6⟩ := h
-    exact ⟨⟨⟨⟨⟨leavesOwnedB_mono hs h1, h2⟩, h3⟩, h4⟩, h5⟩, h6⟩
+    obtain ⟨⟨⟨h1, h2⟩, h3⟩, h5⟩ := h
+    exact ⟨⟨⟨leavesOwnedB_mono hs h1, h2⟩, h3⟩, h5⟩
   | mem fmt base off e =>
     simp only [CStmt.ok, Bool.and_eq_true] at h ⊢
-    obtain ⟨⟨⟨⟨⟨⟨h0, h1⟩, h2⟩, h3⟩, h4⟩, h5⟩, h6⟩ := h
-    refine ⟨⟨⟨⟨⟨⟨?_, leavesOwnedB_mono hs h1⟩, h2⟩, h3⟩, h4⟩, h5⟩, h6⟩
+    obtain ⟨⟨⟨⟨h0, h1⟩, h2⟩, h3⟩, h5⟩ := h
+    refine ⟨⟨⟨⟨?_, leavesOwnedB_mono hs h1⟩, h2⟩, h3⟩, h5⟩
     simp only [List.contains_iff_mem] at h0 ⊢
     exact hs _ h0
 
@@ -127,7 +127,7 @@ theorem KStmt.own_sup : ∀ (s : KStmt) (o : List Nat), Sub o (s.own o) := by
   | ifElse c body els _ _ => intro o; exact Sub.refl o
 
 theorem OperandOk.mono {e : Expr} {b : Bool} {o o' : List Nat} (hs : Sub o o') (h : OperandOk e b o) : OperandOk e b o' :=
-  ⟨leavesOwned_mono hs h.leaves, h.frag, h.inplace, h.narrow, h.neg32⟩
+  ⟨leavesOwned_mono hs h.leaves, h.frag, h.narrow⟩
 
 theorem AtomOk.mono {l r : Expr} {o o' : List Nat} (hs : Sub o o') (h : AtomOk o l r) : AtomOk o' l r :=
   ⟨h.left.mono hs, fun hn => (h.right hn).mono hs, h.noWidenInPlace, h.frag⟩
